@@ -50,7 +50,7 @@ func failing(cs run.Case, tries int) (run.Result, bool) {
 	var last run.Result
 	for i := 0; i < tries; i++ {
 		last = run.Run(cs)
-		if last.Hang || last.Diff() >= 0 {
+		if last.Bad() {
 			return last, true
 		}
 	}
@@ -65,13 +65,19 @@ func report(c *hx.Ctx, cs run.Case, res run.Result, human string) {
 	} else if i := res.Diff(); i >= 0 {
 		b.Impl = fmt.Sprintf("run %d of %d (input %+v): %s", i, len(res.Got), cs.Inputs[i], res.Got[i])
 		b.Model = "fresh build, single run: " + res.Want[i].String()
+		if cs.SharedWrites {
+			b.Model = "fresh build started on the host variables as the previous run must leave them, single run: " + res.Want[i].String()
+		}
+	} else if res.HostBad != "" {
+		b.Name = "shared-host-variables-differ"
+		b.Impl, b.Model = res.HostBad, "variables declared with a pointer are the host's own: every run reads and writes the host variable itself"
 	}
 	c.Res.AddBreak(b)
 }
 
 func runC10(c *hx.Ctx) error {
 	res := c.Res
-	res.Rule = "generated Go programs (2-7 snippets of 22 kinds: loops, strings, floats, slices, maps, methods, closures, package variables, defer/recover, complex and nil constants, type switches, natives with env/variadics/callbacks, goroutine, select; normal end, panic or runtime error) and HTML templates (2-7 snippets of 16 kinds: shows in HTML/attribute/JS/CSS contexts, for, if, macros, natives, closures, render, maps, slices), built once and run 2-32 times concurrently (start jitter, GOMAXPROCS 1-16) or sequentially with the same or different inputs, every run compared with a fresh build's single run; plus toy register programs compared with the Lean machine. Non-trivial: at least two runs and a build that succeeds; distinct by source+inputs"
+	res.Rule = "generated Go programs (2-7 snippets of 22 kinds: loops, strings, floats, slices, maps, methods, closures, package variables, defer/recover, complex and nil constants, type switches, natives with env/variadics/callbacks, goroutine, select; normal end, panic or runtime error) and HTML templates (2-7 snippets of 16 kinds: shows in HTML/attribute/JS/CSS contexts, for, if, macros, natives, closures, render, maps, slices), built once and run 2-32 times concurrently (start jitter, GOMAXPROCS 1-16) or sequentially with the same or different inputs, every run compared with a fresh build's single run; a second stream of artefacts that write and then read state of every kind that could outlive a run (20 kinds in programs: variables of a native package declared with nil pointers of seven types written directly, through pointers, from functions, goroutines and callbacks, variables declared with pointers to host variables read or written, package-level variables initialised by calls, composite values mutated in place, closures in package-level func variables, init functions, channels, literals; 11 kinds in templates: globals declared with nil pointers and with pointers, the same through import, Run variables given by pointer, {% var %} and macros of imported files, file-level variables of a file that extends a layout), mixed with 0-2 ordinary snippets, run 2-12 times first sequentially then concurrently; state shared on purpose (pointer declarations) is given to the oracle as an input: a chain of fresh builds each started on the host state its predecessor left, plus the generator's own reference semantics for the final host state; plus toy register programs compared with the Lean machine. Non-trivial: at least two runs and a build that succeeds; distinct by source+inputs"
 
 	if c.Replay != "" {
 		return replay(c)
@@ -245,7 +251,7 @@ func runC10(c *hx.Ctx) error {
 		if len(raceSample) < c.N(0, 150) && i%5 == 0 {
 			raceSample = append(raceSample, cs)
 		}
-		if r.Hang || r.Diff() >= 0 {
+		if r.Bad() {
 			failures++
 			// shrink: drop snippets while some attempt still fails (bounded: a hang costs HangTimeout)
 			cur := sn
@@ -276,6 +282,11 @@ func runC10(c *hx.Ctx) error {
 				break
 			}
 		}
+	}
+
+	// 2b. state across runs
+	if err := stateStream(c); err != nil {
+		return err
 	}
 
 	// 3. the same kind of runs under the race detector (thorough tier; needs cgo)
